@@ -124,12 +124,20 @@ def case_term(c):
                 break
             n, lim = len(se["times"]), c["lim"]
             for ci, col in enumerate(se["cols"]):
-                if col["t"] not in ("int", "float") or ci >= len(c["st"][si]):
+                if col["t"] not in ("int", "float", "bool") or ci >= len(c["st"][si]):
                     continue
-                segs = []
-                for lo in range(0, n, lim):
-                    segs.append("[" + ";".join("(%s, %d)" % ("None" if col["nulls"][i] else "Some %d" % col["vals"][i], se["times"][i])
-                                               for i in range(lo, min(lo + lim, n))) + "]")
+                row = lambda i: "(%s, %d)" % ("None" if col["nulls"][i] else "Some %d" % col["vals"][i], se["times"][i])
+                cut = lambda a, b: "[" + ";".join("[" + ";".join(row(i) for i in range(lo, min(lo + lim, b))) + "]" for lo in range(a, b, lim)) + "]"
+                if k == "compact" and (c.get("cp") or {}).get("stream"):
+                    # streaming compaction merges the stored blocks of the source chunks: the rows chunk by chunk
+                    at, chunks = 0, []
+                    for f in c["cp"]["files"]:
+                        if f[si] > 0:
+                            chunks.append(cut(at, at + f[si]))
+                            at += f[si]
+                    words.append("check_stats_%s_stream false [%s] (mkStat %s)" % (col["t"], ";".join(chunks), " ".join(str(int(x)) for x in c["st"][si][ci])))
+                    continue
+                segs = [cut(0, n)[1:-1]]
                 words.append("check_stats_%s %s [%s] (mkStat %s)" % (col["t"], "true" if c.get("cmode", 0) == 3 else "false", ";".join(segs), " ".join(str(int(x)) for x in c["st"][si][ci])))
         if words:
             t = "(%s + 16 * lor_all [%s])" % (t, ";".join(words))
